@@ -366,6 +366,11 @@ ModelErr scalarBin(BinOp o, FKind ak, const Val &a, FKind bk, const Val &b,
         if (o == BO_MODULO) return ME_UNDEFINED;
         double x = a.d, y = b.d, z;
         bool inex = a.inexact || b.inexact;
+        // An inexact value carries an absolute error of about 1e-5 (terminal
+        // rounding); arithmetic on it can amplify that without bound (small
+        // divisors, cancellation), so the model gives no opinion.  Maximum and
+        // minimum only select one of the operands.
+        if (inex && o != BO_MAXIMUM && o != BO_MINIMUM) return ME_UNDEFINED;
         switch (o) {
             case BO_PLUS:       z = x + y; break;
             case BO_MINUS:      z = x - y; break;
